@@ -233,6 +233,7 @@ unsafe extern "C" fn v_drop_writable(h: u32) {
     assert!(!mt::registered_anywhere(h), "future.drop-writable while the end is still registered with a task");
     assert!(H.drop_writable_calls == 0, "future.drop-writable twice");
     H.drop_writable_calls += 1;
+    mt::G.handle_closed = true;
 }
 
 unsafe fn host_complete_read() {
@@ -282,6 +283,7 @@ unsafe extern "C" fn v_drop_readable(h: u32) {
     assert!(!mt::registered_anywhere(h), "future.drop-readable while the end is still registered with a task");
     assert!(H.drop_readable_calls == 0, "future.drop-readable twice");
     H.drop_readable_calls += 1;
+    mt::G.handle_closed = true;
 }
 
 // Stand-ins for the intrinsics of the end a harness does not own.  Separate
